@@ -54,7 +54,7 @@ def runCalls (p : Node) : List Str :=
 /-- the `Resolve` calls of `ParseTable`: one per paragraph of every cell (`parseCellParagraph`) -/
 def cellCalls (tbl : Node) : List Str :=
   (childrenNamed tbl.kids sTr).flatMap fun tr => (childrenNamed tr.kids sTc).flatMap fun tc =>
-    (childrenNamed tc.kids sP).map styleIdOf
+    (cellParas tc).map styleIdOf
 
 /-- `processElementsInOrder` on one body element, with the resolver's cache -/
 def processElementC (st : Styles) (n : Node) (c : Cache) : Elem × Cache :=
